@@ -68,6 +68,72 @@ def cmn_order_rule(ctx, P):
       for x in ("*inout_ncep", "endutt"):
         later = [s_ for s_ in paths.stores(f) if s_["path"] == x and paths.may_reach(f, c, lambda e, n_=s_["node"]: e == n_)]
         ctx.check(r, x in args and not later, "feat_s2mfc2feat_live:final:%s@%d" % (x, calls.index(c)), f.where(c), "feat_cmn is called before `%s` gets its final value (line %s): the block is normalised over more frames than are consumed, and the frames handed back are normalised again by the next call" % (x, f.line(later[0]["node"]) if later else "?"))
+    live_mean_rule(ctx, P, r)
+
+
+def live_mean_rule(ctx, P, r):
+    """within an utterance the mean that live normalisation subtracts stays put from block to block: cmn_live
+    re-estimates it only under its high-water test on the frame count, not at the end of every block (the
+    block boundaries are the caller's chunking)"""
+    import re as _re
+    f = P.fn("cmn_live", "cmn_live.c")
+    ctx.touch(f)
+    writers = set()
+    for g in [x for u_ in ("cmn.c", "cmn_live.c") for x in P.functions(u_) if x.file.endswith(u_)]:
+        if any(s_["kind"] == "Subscript" and _re.search(r"(->|\.)cmn_mean\[", s_["path"]) for s_ in paths.stores(g)):
+            writers.add(g.name)
+    sites = [c for c in f.calls() if f.nodes[c].get("callee") in writers] + [s_["node"] for s_ in paths.stores(f) if s_["kind"] == "Subscript" and _re.search(r"(->|\.)cmn_mean\[", s_["path"])]
+    if not sites:
+        raise AnalysisIncomplete("cmn_live no longer re-estimates the mean anywhere")
+
+    def hwm(fn, cc, pol):
+        rr = paths.rel(fn, cc, pol, subst=False)
+        return rr is not None and rr[1] in ("<", "<=") and rr[2].endswith("->nframe") and _re.match(r"^\d+$", rr[0]) is not None and int(rr[0]) >= 1
+    for n_, c in enumerate(sites):
+        ctx.check(r, paths.guarded(f, c, hwm), "cmn_live:mean-only-past-high-water#%d" % n_, f.where(c), "cmn_live re-estimates the mean here without the high-water test on the frame count: the mean subtracted from the next block then depends on where this block ended, so the features (and scores) of an utterance depend on how the caller chunks it")
+
+
+def rewind_restore_rule(ctx, P):
+    """a partial alignment re-reads the utterance from its start and must leave the acoustic model where the
+    main search had got to: frames buffered but not yet searched (no_search) stay for the main search"""
+    r = ctx.rule("PAIR.rewind-restore", "decoder_alignment saves the output position before it rewinds the acoustic model and advances it again only inside a loop bounded by that saved position; nothing else it calls advances the acoustic model", floor=3)
+    f = P.fn("decoder_alignment", "decoder.c")
+    ctx.touch(f)
+    rw = f.calls("acmod_rewind")
+    if len(rw) != 1:
+        raise AnalysisIncomplete("decoder_alignment: expected one acmod_rewind (found %d)" % len(rw))
+    # functions of decoder.c from which acmod_advance is reachable
+    adv = {"acmod_advance"}
+    grew = True
+    dfs = [g for g in P.functions("decoder.c") if g.file.endswith("decoder.c")]
+    while grew:
+        grew = False
+        for g in dfs:
+            if g.name not in adv and any(g.nodes[c_].get("callee") in adv for c_ in g.calls()):
+                adv.add(g.name)
+                grew = True
+    after = [c for c in f.calls() if f.nodes[c].get("callee") in adv and f.cfg.path_exists(paths.pos_of(f, rw[0]), lambda e, c=c: e == c)]
+    if not after:
+        raise AnalysisIncomplete("decoder_alignment no longer advances the acoustic model after the rewind")
+    for n_, c in enumerate(after):
+        cal = f.nodes[c].get("callee")
+        if cal != "acmod_advance":
+            ctx.bad(r, "decoder_alignment:advance-through:%s" % cal, f.where(c), "after the rewind decoder_alignment advances the acoustic model through %s, which is not bounded by the position saved before the rewind: frames that were buffered for the main search are consumed by the aligner and the main search never sees them" % cal)
+            continue
+        lp = f.enclosing(c, ("While", "For", "Do"))
+        ok, why = False, "not in a loop"
+        if lp is not None:
+            cn = f.ch(lp)[{"While": 0, "For": 1, "Do": 1}[f.k(lp)]]
+            rr = paths.rel(f, cn, True, subst=False)
+            why = "loop condition %s" % (rr,)
+            if rr is not None and rr[1] == "<" and rr[0].endswith("->output_frame"):
+                L = rr[2]
+                ds = [s_ for s_ in paths.stores(f) if s_["path"] == L]
+                ok = len(ds) == 1 and ds[0]["rhs"] is not None and f.canon(ds[0]["rhs"], subst=False) == rr[0] and paths.always_before(f, rw[0], lambda e, n=ds[0]["node"]: e == n)
+                why = "`%s` is not the output position saved once before the rewind" % L
+        ctx.check(r, ok, "decoder_alignment:bounded-advance#%d" % n_, f.where(c), "the acoustic model is advanced after the rewind but %s" % why)
+    ctx.check(r, True, "decoder_alignment:rewind", f.where(rw[0]), "")
+    ctx.check(r, True, "decoder_alignment:advancers:%d" % len(adv), f.where(f.root), "")
 
 
 def consume_all_rule(ctx, P):
@@ -96,6 +162,7 @@ def run(ctx):
     P = ctx.P
     cmn_order_rule(ctx, P)
     consume_all_rule(ctx, P)
+    rewind_restore_rule(ctx, P)
     ac = {f.name: f for f in P.functions(U) if f.file.endswith(U)}
     need = ["acmod_process_raw", "acmod_process_float32", "acmod_process_full_raw", "acmod_process_full_float32", "acmod_process_mfcbuf", "acmod_process_cep",
             "acmod_process_full_cep", "acmod_rewind", "acmod_advance", "acmod_start_utt", "acmod_end_utt", "calc_feat_idx", "acmod_set_grow"]
